@@ -19,6 +19,13 @@ def install_clock():
     return clock
 
 
+class MalformedOutput(Exception):
+    def __init__(self, raw, error):
+        Exception.__init__(self, 'the connection wrote bytes that are not a well-formed DBus message: %s' % (error,))
+        self.raw = raw
+        self.error = error
+
+
 class Peer:
     """The checker's side of the connection: reads what the client wrote, injects bytes."""
 
@@ -87,7 +94,12 @@ class Peer:
                     self.binary += payload
                     msgs, self.binary = RM.split_stream(self.binary)
                     for raw in msgs:
-                        p = RM.parse(raw, strict=True)
+                        try:
+                            p = RM.parse(raw, strict=True)
+                        except Exception as e:
+                            # the connection under test wrote bytes that are not a well-formed message: whatever the
+                            # property at hand, that is a refuting observation, not a harness problem
+                            raise MalformedOutput(raw, e)
                         p.raw = raw
                         p.fds = self._pending_fds
                         self._pending_fds = []
